@@ -835,7 +835,26 @@ impl<'comments> Formatter<'comments> {
                 documents.push(lines(1));
             }
 
-            documents.push(self.expr(expression, false).group());
+            // NOTE: 'trace', 'fail' and 'todo' extend over what follows them. When they are
+            // followed by something in a sequence, they were delimited in the source.
+            let document = if i + 1 < count {
+                match expression {
+                    UntypedExpr::Trace {
+                        kind: TraceKind::Trace,
+                        ..
+                    } => self.wrap_expr(expression),
+                    UntypedExpr::ErrorTerm { .. }
+                    | UntypedExpr::Trace {
+                        kind: TraceKind::Error | TraceKind::Todo,
+                        ..
+                    } => self.wrap_operand(expression),
+                    _ => self.expr(expression, false),
+                }
+            } else {
+                self.expr(expression, false)
+            };
+
+            documents.push(document.group());
         }
 
         documents.to_doc().force_break()
